@@ -168,7 +168,19 @@ func truthy(v any) bool {
 }
 
 // numOK reports whether a number is within the modelled domain.
-func numOK(n *core.Num) bool { return n.Bad == "" && n.Special == "" && n.R != nil }
+// A number whose magnitude lies outside the decimal128 exponent range (1e7000, 1e-7000) is outside it: the library
+// cannot hold it as a number, and what it does instead (a type error, null) is not pinned by any property.
+func numOK(n *core.Num) bool {
+	if n.Bad != "" || n.Special != "" || n.R == nil {
+		return false
+	}
+	if n.R.Sign() != 0 {
+		if m := Magnitude(n.R); m > 6144 || m < -6176 {
+			return false
+		}
+	}
+	return true
+}
 
 // deepEqual is JSON equality; ok=false when a number outside the model is met.
 func deepEqual(a, b any) (eq bool, ok bool) {
